@@ -111,7 +111,7 @@ func (e *exporter) adt(env *adt.Environment, expr adt.Elem) ast.Expr {
 			// This can happen when the LabelReference is evaluated outside of
 			// normal evaluation, that is, if a pattern constraint or
 			// additional constraint is evaluated by itself.
-			return ast.NewIdent("string")
+			return ast.NewPredeclared("string")
 		}
 		list, ok := f.field.Label.(*ast.ListLit)
 		if !ok || len(list.Elts) != 1 {
